@@ -102,9 +102,6 @@ func (x *Exec) info(fn *ssa.Function) *fnInfo {
 					fi.names[t.Comment] = append(fi.names[t.Comment], t)
 				}
 			case *ssa.DebugRef:
-				if id, ok := t.Expr.(interface{ String() string }); ok && !t.IsAddr {
-					_ = id
-				}
 				if name := debugName(t); name != "" && !t.IsAddr {
 					fi.names[name] = append(fi.names[name], t.X)
 				}
@@ -115,11 +112,6 @@ func (x *Exec) info(fn *ssa.Function) *fnInfo {
 }
 
 func debugName(d *ssa.DebugRef) string {
-	type namer interface{ String() string }
-	switch e := d.Expr.(type) {
-	case interface{ End() token.Pos }:
-		_ = e
-	}
 	if id, ok := d.Expr.(*astIdent); ok {
 		return id.Name
 	}
@@ -143,6 +135,9 @@ func calleeShortName(c *ssa.CallCommon) string {
 func (x *Exec) lookupName(st *State, name string, hdr *ssa.BasicBlock) (Val, bool) {
 	for i := len(st.frames) - 1; i >= 0; i-- {
 		f := st.frames[i]
+		if f.fn == nil {
+			continue
+		}
 		fi := x.info(f.fn)
 		vals := fi.names[name]
 		var best ssa.Value
